@@ -36,7 +36,7 @@ func (g *genCtx) scale(quick, thorough int) int {
 	}
 	if quick >= 2000 {
 		// case counts (not structural parameters such as document sizes): the quick tier has room for more
-		return quick * 2
+		return quick * 4
 	}
 	return quick
 }
